@@ -38,7 +38,7 @@ META = dict(
     level="model_checking",
     bounds=dict(quick="tier 1: one set from the initial camera state and one re-configuration step from an arbitrary earlier configuration, full 32-bit shape/offset range, all binnings and types; tier 2: im_fill_rand for all shapes <= 16x4 and types (symbolic), AVX2 bin2 and the binning cascade (2,4,8) for every shape <= 64 x 6/8 (enumerated, see harness)",
                 thorough="tier 2 boxes: im_fill_rand 32x8, bin2 widths 1..100 x heights 1..8, cascade widths 1..64 x heights 1..8 (in width slices of about 10 GB each)"),
-    outside="re-configuration while the streamer thread is running (buffers are reallocated under it); allocation failure",
+    outside="ALIGNMENT of the AVX2 vector accesses (CBMC has no alignment model: the 32-byte aligned moves on realloc memory repaired by 6395a31 were not, and would not be, found by this check); re-configuration while the streamer thread is running (buffers are reallocated under it); allocation failure",
     assumptions=["popcount_u8 (C++ std::popcount) replaced by a C bit-count model", "realloc stub records the requested size; lock model of env/plat_seq.c",
                  "pattern renderers (C++, imfill.pattern.cpp) are stubbed: their extent is not decided (their loops write width*height elements through the strides of the full-resolution shape)",
                  "AVX2 intrinsics have no body under CBMC (arbitrary lane values); bin2's accesses depend on (w,h) only"],
